@@ -527,14 +527,15 @@ impl<'a> Model<'a> {
         let Some(want) = &r.packet else { return false };
         match (want, p) {
             (Packet::Publish(a), Packet::Publish(b)) => {
-                let t = &self.trs[tr];
+                // the downgrade decision is taken when the request is made, i.e. against the
+                // Maximum QoS of the connection the operation ran on (a replay keeps its encoding)
+                let req_tr = self.v.trace.ops.get(r.op).map(|o| o.tr).unwrap_or(tr);
+                let t = &self.trs[req_tr];
                 let exp_qos = match t.max_qos {
                     Some(m) if self.case.cfg.downgrade && a.qos > m => m,
                     _ => a.qos,
                 };
-                // the downgrade decision is taken on the connection the request was made on; a
-                // request replayed later keeps its encoding, so accept either reading
-                (b.qos == exp_qos || b.qos == a.qos || self.case.cfg.downgrade && b.qos <= a.qos)
+                b.qos == exp_qos
                     && a.retain == b.retain
                     && a.topic == b.topic
                     && a.payload == b.payload
@@ -1234,7 +1235,12 @@ impl<'a> Model<'a> {
                 _ => distinct[2] = true,
             }
             if *st != want && !hostile {
-                self.bad("C18", format!("C18/status/{:?}-expected-{:?}/{}", st, want, kind_name(f.kind)), format!("handle {h} ({} id {}): reported {:?}, model says {:?}", kind_name(f.kind), f.pid, st, want));
+                let detail = format!("handle {h} ({} id {}): reported {:?}, model says {:?}", kind_name(f.kind), f.pid, st, want);
+                self.bad("C18", format!("C18/status/{:?}-expected-{:?}/{}", st, want, kind_name(f.kind)), detail.clone());
+                if want == HStatus::Invalidated {
+                    // C05: after a fresh broker session every earlier handle reports invalidated
+                    self.bad("C05", format!("C05/handle-not-invalidated/{:?}", st), detail);
+                }
             }
         }
         self.stats.max_distinct_status = self.stats.max_distinct_status.max(distinct.iter().filter(|b| **b).count() as u32);
